@@ -203,32 +203,30 @@ def result_violation(v: Violation, **kw):
 
 
 # ----------------------------------------------------------------------------- worker pool
-def _worker_main(conn, func_path, init_path, wall_cap):
-    # children never inherit the parent's handlers for SIGINT in a way that leaves zombies
+def _job_main(conn, func_path, init_path, wall_cap, idx, plan):
+    """One forked process per job: every job starts from the same process state (the parent's, which has only imported
+    modules and never executed a plan), so what a job observes cannot depend on which jobs a worker happened to run before."""
     signal.signal(signal.SIGINT, signal.SIG_IGN)
     try:
         func = _resolve(func_path)
         if init_path:
             _resolve(init_path)()
+        faulthandler.dump_traceback_later(wall_cap + 5, exit=False, file=sys.stderr)
+        res = func(plan)
+        faulthandler.cancel_dump_traceback_later()
+        conn.send(("done", idx, res))
     except BaseException:  # noqa: BLE001
-        conn.send(("fatal", None, traceback.format_exc()))
-        return
-    while True:
         try:
-            msg = conn.recv()
-        except EOFError:
-            return
-        if msg is None:
-            return
-        idx, plan = msg
+            faulthandler.cancel_dump_traceback_later()
+        except Exception:  # noqa: BLE001
+            pass
+        conn.send(("done", idx, {"status": "harness_error", "trace": traceback.format_exc()}))
+    finally:
         try:
-            faulthandler.dump_traceback_later(wall_cap + 5, exit=False, file=sys.stderr)
-            res = func(plan)
-            faulthandler.cancel_dump_traceback_later()
-            conn.send(("done", idx, res))
-        except BaseException:  # noqa: BLE001
-            faulthandler.cancel_dump_traceback_later()
-            conn.send(("done", idx, {"status": "harness_error", "trace": traceback.format_exc()}))
+            conn.close()
+        except Exception:  # noqa: BLE001
+            pass
+        os._exit(0)
 
 
 def _resolve(path: str):
@@ -239,86 +237,71 @@ def _resolve(path: str):
     return getattr(m, name)
 
 
+def preload():
+    """Import (only import) the heavy modules in the parent so that forked job processes inherit them."""
+    import jsonschema  # noqa: F401
+    import pygfunction  # noqa: F401
+    import scipy.interpolate  # noqa: F401
+    import scipy.optimize  # noqa: F401
+
+    import ghedesigner.manager  # noqa: F401
+    import ghedesigner.output  # noqa: F401
+    import ghedesigner.search_routines  # noqa: F401
+
+
 def run_pool(func_path: str, plans: list, workers: int = 16, wall_cap: float = 240.0, init_path: str = "",
              progress=None, deadline: float | None = None):
-    """Execute func(plan) for each plan in forked workers.  Returns list of results in plan order.
-    A run that exceeds wall_cap gets {"status": "harness_timeout"}; its worker is killed and replaced.
-    `deadline` (absolute real time) stops handing out new plans; unstarted plans get status "skipped"."""
+    """Execute func(plan) for each plan, each in its own forked process, at most `workers` at a time.  Returns results in
+    plan order.  A job that exceeds wall_cap gets {"status": "harness_timeout"} and is killed.  `deadline` (absolute real
+    time) stops starting new jobs; unstarted jobs get status "skipped"."""
     ctx = mp.get_context("fork")
     n = len(plans)
     results: list = [None] * n
     next_idx = 0
-    slots = []  # dicts: proc, conn, idx, t0
+    _resolve(func_path)
+    preload()
+    running = []  # dicts: proc, conn, idx, t0
 
-    def spawn():
-        parent, child = ctx.Pipe()
-        p = ctx.Process(target=_worker_main, args=(child, func_path, init_path, wall_cap), daemon=True)
-        p.start()
-        child.close()
-        return {"proc": p, "conn": parent, "idx": None, "t0": 0.0}
-
-    def feed(slot):
+    def start_next():
         nonlocal next_idx
         if next_idx >= n:
             return False
         if deadline is not None and _real_time.time() > deadline:
             return False
-        slot["idx"] = next_idx
-        slot["t0"] = _real_time.time()
-        slot["conn"].send((next_idx, plans[next_idx]))
+        parent, child = ctx.Pipe(duplex=False)
+        p = ctx.Process(target=_job_main, args=(child, func_path, init_path, wall_cap, next_idx, plans[next_idx]), daemon=True)
+        p.start()
+        child.close()
+        running.append({"proc": p, "conn": parent, "idx": next_idx, "t0": _real_time.time()})
         next_idx += 1
         return True
 
     workers = max(1, min(workers, n))
     for _ in range(workers):
-        s = spawn()
-        slots.append(s)
-        feed(s)
+        start_next()
     done = 0
-    while True:
-        active = [s for s in slots if s["idx"] is not None]
-        if not active:
-            break
-        ready = _mp_wait([s["conn"] for s in active], timeout=1.0)
+    while running:
+        ready = _mp_wait([s["conn"] for s in running], timeout=1.0)
         now = _real_time.time()
-        for s in active:
+        for s in list(running):
+            finished = False
             if s["conn"] in ready:
                 try:
                     kind, idx, res = s["conn"].recv()
-                except (EOFError, ConnectionResetError):
-                    kind, idx, res = "dead", s["idx"], None
-                if kind == "done":
                     results[idx] = res
-                elif kind == "fatal":
-                    results[s["idx"]] = {"status": "harness_error", "trace": res}
-                else:
-                    results[s["idx"]] = {"status": "harness_error", "trace": "worker died"}
+                except (EOFError, ConnectionResetError, OSError):
+                    results[s["idx"]] = {"status": "harness_error", "trace": "job process died without a result"}
+                finished = True
+            elif now - s["t0"] > wall_cap:
+                results[s["idx"]] = {"status": "harness_timeout", "wall_cap": wall_cap}
+                finished = True
+            if finished:
+                _kill(s)
+                running.remove(s)
                 done += 1
                 if progress:
                     progress(done, n)
-                s["idx"] = None
-                if kind != "done":
-                    _kill(s)
-                    ns = spawn()
-                    s.update(ns)
-                feed(s)
-            elif now - s["t0"] > wall_cap:
-                results[s["idx"]] = {"status": "harness_timeout", "wall_cap": wall_cap}
-                done += 1
-                _kill(s)
-                ns = spawn()
-                s.update(ns)
-                s["idx"] = None
-                feed(s)
-    for s in slots:
-        try:
-            s["conn"].send(None)
-        except Exception:  # noqa: BLE001
-            pass
-    for s in slots:
-        s["proc"].join(timeout=2)
-        if s["proc"].is_alive():
-            _kill(s)
+                start_next()
     for i in range(n):
         if results[i] is None:
             results[i] = {"status": "skipped"}
@@ -327,8 +310,10 @@ def run_pool(func_path: str, plans: list, workers: int = 16, wall_cap: float = 2
 
 def _kill(slot):
     try:
-        slot["proc"].kill()
-        slot["proc"].join(timeout=2)
+        slot["proc"].join(timeout=0.5)
+        if slot["proc"].is_alive():
+            slot["proc"].kill()
+            slot["proc"].join(timeout=2)
     except Exception:  # noqa: BLE001
         pass
     try:
